@@ -106,7 +106,14 @@ def match_known(prop, o, known):
     return None
 
 
-def finish(ctx, t0, seed=0, out=print):
+def safe_print(*a):
+    try:
+        print(*a)
+    except BrokenPipeError:
+        pass
+
+
+def finish(ctx, t0, seed=0, out=safe_print):
     """Print verdict lines, write evidence (+ replay on violation); return exit code."""
     known = load_known()
     viol = ctx.violations()
